@@ -13,6 +13,68 @@ CLASS = {
 }
 
 
+def reader_result_shape(b, read):
+    """how the Result<Event, Error> of a reader call is consumed.  Returns dict with
+       form: "match" (matched directly) | "question" (`?`, possibly after map_err) | None
+       err_block: first block of the error continuation (Err arm / Break arm)
+       event_switch: switch_enum dict on the Ok payload (the Event)
+       map_err: the map_err call Site if any"""
+    out = {"form": None, "err_block": None, "event_switch": None, "map_err": None, "sw_result": None, "branch": None}
+    nxt = b.succs(read.bb)
+    if len(nxt) != 1:
+        return out
+    sw = mir.switch_enum(b, nxt[0])
+    if sw is not None and sw["enum"] == "std::result::Result" and b.canon(sw["place"])["l"] == read.node["dest"]["l"]:
+        out["form"] = "match"
+        out["sw_result"] = sw
+        out["err_block"] = mir.variant_target(sw, b, "Err")
+        okb = mir.variant_target(sw, b, "Ok")
+        if okb is not None:
+            out["event_switch"] = mir.switch_enum(b, okb)
+        return out
+    # `?` form: follow the value through map_err into Try::branch
+    cur = read.node["dest"]["l"]
+    site = None
+    for _ in range(3):
+        users = [c for c in b.calls() if any(mir.op_place(a) is not None and mir.op_place(a)["l"] == cur and not mir.op_place(a)["p"] for a in c.node["args"][:1])]
+        if len(users) != 1:
+            return out
+        u = users[0]
+        if cname(u.node) == "std::result::Result::map_err":
+            out["map_err"] = u
+            cur = u.node["dest"]["l"]
+            continue
+        if cname(u.node) == "std::ops::Try::branch":
+            site = u
+        break
+    if site is None:
+        return out
+    n2 = b.succs(site.bb)
+    swc = mir.switch_enum(b, n2[0]) if len(n2) == 1 else None
+    if swc is None or swc["enum"] != "std::ops::ControlFlow":
+        return out
+    out["form"] = "question"
+    out["branch"] = site
+    out["err_block"] = mir.variant_target(swc, b, "Break")
+    cont = mir.variant_target(swc, b, "Continue")
+    # the Event switch: first enum switch on an Event reached from the Continue arm
+    seen = set()
+    work = [cont] if cont is not None else []
+    while work:
+        x = work.pop()
+        if x in seen:
+            continue
+        seen.add(x)
+        sw2 = mir.switch_enum(b, x)
+        if sw2 is not None and sw2["enum"].endswith("events::Event"):
+            out["event_switch"] = sw2
+            break
+        if sw2 is not None:
+            continue
+        work.extend(b.succs(x))
+    return out
+
+
 class EventLoop:
     def __init__(self, crate):
         cands = []
@@ -26,14 +88,11 @@ class EventLoop:
             return
         self.body, self.read = cands[0]
         b = self.body
-        nxt = b.succs(self.read.bb)
-        self.sw_result = mir.switch_enum(b, nxt[0]) if len(nxt) == 1 else None
-        self.sw_event = None
-        if self.sw_result is not None and self.sw_result["enum"] == "std::result::Result":
-            okb = mir.variant_target(self.sw_result, b, "Ok")
-            if okb is not None:
-                self.sw_event = mir.switch_enum(b, okb)
-        if self.sw_event is None or not self.sw_event["enum"].endswith("events::Event"):
+        self.shape = reader_result_shape(b, self.read)
+        self.sw_result = self.shape["sw_result"]
+        self.sw_event = self.shape["event_switch"]
+        self.err_block = self.shape["err_block"]
+        if self.sw_event is None or not self.sw_event["enum"].endswith("events::Event") or self.err_block is None:
             self.ok = False
             return
         self.variants = self.sw_event["variants"]
